@@ -1,6 +1,1083 @@
-//! c03 — stub, to be implemented
-use crate::report::Report;
+//! C03 — frame-buffer pixel addressing: rotation, bounds and bit layout.
+//!
+//! Technique: the REAL `set_pixel` / `draw_iter` of `Display` (every shipped alias) and `VarDisplay`
+//! is executed call by call; an independently written reference frame-buffer model (closed-form
+//! rotation, row padding, documented colour encodings) maintains a shadow buffer, and after EVERY
+//! call the whole real buffer (for `VarDisplay`: the whole backing slice including a sentinel tail
+//! beyond what `buffer()` exposes) is compared with the shadow. Panics are caught and reported.
+//!
+//! Nothing here reads graphics.rs' arithmetic: the only things taken from the library are the
+//! public types, the module WIDTH/HEIGHT constants and the results of the calls under test.
+use crate::json::J;
+use crate::prng::{hash_str, mix64, Rng};
+use crate::report::{par_run, Failure, Report};
 use crate::Ctx;
-pub fn run(_ctx: &Ctx) -> Report {
-    Report::new()
+use embedded_graphics_core::prelude::*;
+use epd_waveshare::color::{Color, ColorType, OctColor, TriColor};
+use epd_waveshare::graphics::{Display, DisplayRotation, VarDisplay};
+use std::panic::{catch_unwind, AssertUnwindSafe};
+
+// ------------------------------------------------------------------------------------------------
+// reference model
+// ------------------------------------------------------------------------------------------------
+
+#[derive(Clone, Copy, PartialEq, Eq, Debug)]
+pub enum Kind {
+    Bw,
+    Tri,
+    Oct,
+}
+
+impl Kind {
+    fn bpp(self) -> usize {
+        match self {
+            Kind::Oct => 4,
+            _ => 1,
+        }
+    }
+    fn planes(self) -> usize {
+        match self {
+            Kind::Tri => 2,
+            _ => 1,
+        }
+    }
+    fn ncol(self) -> u8 {
+        match self {
+            Kind::Bw => 2,
+            Kind::Tri => 3,
+            Kind::Oct => 8,
+        }
+    }
+    fn tag(self) -> &'static str {
+        match self {
+            Kind::Bw => "color",
+            Kind::Tri => "tricolor",
+            Kind::Oct => "octcolor",
+        }
+    }
+    fn type_name(self) -> &'static str {
+        match self {
+            Kind::Bw => "Color",
+            Kind::Tri => "TriColor",
+            Kind::Oct => "OctColor",
+        }
+    }
+    fn var_group(self) -> &'static str {
+        match self {
+            Kind::Bw => "VarDisplay<Color>",
+            Kind::Tri => "VarDisplay<TriColor>",
+            Kind::Oct => "VarDisplay<OctColor>",
+        }
+    }
+    /// colour index convention of the model: Bw 0=Black 1=White; Tri 0=Black 1=White 2=Chromatic;
+    /// Oct: index == documented 4-bit code
+    fn colour_name(self, ci: u8) -> &'static str {
+        match self {
+            Kind::Bw => ["Black", "White"][ci as usize],
+            Kind::Tri => ["Black", "White", "Chromatic"][ci as usize],
+            Kind::Oct => ["Black", "White", "Green", "Blue", "Red", "Yellow", "Orange", "HiZ"][ci as usize],
+        }
+    }
+}
+
+const ROT_TAG: [&str; 4] = ["rot0", "rot90", "rot180", "rot270"];
+fn rot_of(r: u8) -> DisplayRotation {
+    match r {
+        0 => DisplayRotation::Rotate0,
+        1 => DisplayRotation::Rotate90,
+        2 => DisplayRotation::Rotate180,
+        _ => DisplayRotation::Rotate270,
+    }
+}
+
+#[derive(Clone, Copy, Debug)]
+struct Geo {
+    w: u32,
+    h: u32,
+    kind: Kind,
+    bwrbit: bool,
+}
+
+/// bytes/bits one pixel occupies (one entry per plane)
+#[derive(Clone, Copy, Debug)]
+struct Target {
+    n: usize,
+    idx: [usize; 2],
+    mask: [u8; 2],
+    val: [u8; 2],
+}
+
+impl Geo {
+    fn stride(&self) -> usize {
+        (self.w as usize * self.kind.bpp() + 7) / 8
+    }
+    fn plane_len(&self) -> usize {
+        self.stride() * self.h as usize
+    }
+    fn total(&self) -> usize {
+        self.plane_len() * self.kind.planes()
+    }
+    fn logical(&self, rot: u8) -> (u32, u32) {
+        if rot & 1 == 0 {
+            (self.w, self.h)
+        } else {
+            (self.h, self.w)
+        }
+    }
+    /// logical point (rotated frame) -> physical pixel, None when outside the rotated bounds
+    fn map(&self, rot: u8, x: i32, y: i32) -> Option<(u32, u32)> {
+        let (lw, lh) = self.logical(rot);
+        let (x, y) = (x as i64, y as i64);
+        if x < 0 || y < 0 || x >= lw as i64 || y >= lh as i64 {
+            return None;
+        }
+        let (w, h) = (self.w as i64, self.h as i64);
+        let (px, py) = match rot {
+            0 => (x, y),
+            1 => (w - 1 - y, x),
+            2 => (w - 1 - x, h - 1 - y),
+            _ => (y, h - 1 - x),
+        };
+        Some((px as u32, py as u32))
+    }
+    fn target(&self, px: u32, py: u32, ci: u8) -> Target {
+        let (px, py) = (px as usize, py as usize);
+        match self.kind {
+            Kind::Bw => {
+                let i = py * self.stride() + px / 8;
+                let bit = 0x80u8 >> (px % 8);
+                let v = if ci == 1 { bit } else { 0 };
+                Target { n: 1, idx: [i, 0], mask: [bit, 0], val: [v, 0] }
+            }
+            Kind::Tri => {
+                let i = py * self.stride() + px / 8;
+                let bit = 0x80u8 >> (px % 8);
+                let bw = match ci {
+                    0 => 0,
+                    1 => bit,
+                    _ => {
+                        if self.bwrbit {
+                            0
+                        } else {
+                            bit
+                        }
+                    }
+                };
+                let chr = if ci == 2 { bit } else { 0 };
+                Target { n: 2, idx: [i, i + self.plane_len()], mask: [bit, bit], val: [bw, chr] }
+            }
+            Kind::Oct => {
+                let i = py * self.stride() + px / 2;
+                let (m, v) = if px % 2 == 0 { (0xF0u8, ci << 4) } else { (0x0Fu8, ci) };
+                Target { n: 1, idx: [i, 0], mask: [m, 0], val: [v, 0] }
+            }
+        }
+    }
+}
+
+/// glue: model colour index -> library colour value (explicit variant tables, no library decoder used)
+pub trait Ck: ColorType + PixelColor + Copy {
+    const KIND: Kind;
+    fn from_idx(ci: u8) -> Self;
+}
+impl Ck for Color {
+    const KIND: Kind = Kind::Bw;
+    fn from_idx(ci: u8) -> Self {
+        [Color::Black, Color::White][ci as usize]
+    }
+}
+impl Ck for TriColor {
+    const KIND: Kind = Kind::Tri;
+    fn from_idx(ci: u8) -> Self {
+        [TriColor::Black, TriColor::White, TriColor::Chromatic][ci as usize]
+    }
+}
+impl Ck for OctColor {
+    const KIND: Kind = Kind::Oct;
+    fn from_idx(ci: u8) -> Self {
+        [
+            OctColor::Black,
+            OctColor::White,
+            OctColor::Green,
+            OctColor::Blue,
+            OctColor::Red,
+            OctColor::Yellow,
+            OctColor::Orange,
+            OctColor::HiZ,
+        ][ci as usize]
+    }
+}
+
+// ------------------------------------------------------------------------------------------------
+// shipped aliases behind a trait object
+// ------------------------------------------------------------------------------------------------
+
+trait Fb {
+    fn set_rot(&mut self, r: DisplayRotation);
+    fn dims(&self) -> (u32, u32);
+    fn bytes(&self) -> &[u8];
+    fn px(&mut self, x: i32, y: i32, ci: u8);
+    fn iter(&mut self, pts: &mut dyn Iterator<Item = (i32, i32, u8)>);
+}
+
+impl<const W: u32, const H: u32, const B: bool, const N: usize, C: Ck> Fb for Display<W, H, B, N, C> {
+    fn set_rot(&mut self, r: DisplayRotation) {
+        self.set_rotation(r)
+    }
+    fn dims(&self) -> (u32, u32) {
+        let s = self.size();
+        (s.width, s.height)
+    }
+    fn bytes(&self) -> &[u8] {
+        self.buffer()
+    }
+    fn px(&mut self, x: i32, y: i32, ci: u8) {
+        self.set_pixel(Pixel(Point::new(x, y), C::from_idx(ci)))
+    }
+    fn iter(&mut self, pts: &mut dyn Iterator<Item = (i32, i32, u8)>) {
+        let _ = self.draw_iter(pts.map(|(x, y, ci)| Pixel(Point::new(x, y), C::from_idx(ci))));
+    }
+}
+
+struct Alias {
+    name: &'static str,
+    w: u32,
+    h: u32,
+    kind: Kind,
+    bwrbit: bool,
+    make: fn() -> Box<dyn Fb>,
+}
+
+/// geometry from the driver module constants; colour type / BWRBIT from DESIGN appendix A
+macro_rules! alias {
+    ($name:expr, $m:ident, $t:ident, $kind:expr, $bwr:expr) => {
+        Alias {
+            name: $name,
+            w: epd_waveshare::$m::WIDTH,
+            h: epd_waveshare::$m::HEIGHT,
+            kind: $kind,
+            bwrbit: $bwr,
+            make: || Box::new(epd_waveshare::$m::$t::default()),
+        }
+    };
+}
+
+fn aliases() -> Vec<Alias> {
+    use Kind::*;
+    vec![
+        alias!("Display1in02", epd1in02, Display1in02, Bw, false),
+        alias!("Display1in54", epd1in54, Display1in54, Bw, false),
+        alias!("epd1in54_v2::Display1in54", epd1in54_v2, Display1in54, Bw, false),
+        alias!("Display1in54b", epd1in54b, Display1in54b, Bw, false),
+        alias!("Display1in54c", epd1in54c, Display1in54c, Bw, false),
+        alias!("Display2in13", epd2in13_v2, Display2in13, Bw, false),
+        alias!("Display2in13b", epd2in13b_v4, Display2in13b, Tri, false),
+        alias!("Display2in13bc", epd2in13bc, Display2in13bc, Tri, true),
+        alias!("Display2in66b", epd2in66b, Display2in66b, Tri, false),
+        alias!("epd2in7::Display2in7", epd2in7, Display2in7, Bw, false),
+        alias!("epd2in7_v2::Display2in7", epd2in7_v2, Display2in7, Bw, false),
+        alias!("Display2in7b", epd2in7b, Display2in7b, Bw, false),
+        alias!("epd2in9::Display2in9", epd2in9, Display2in9, Bw, false),
+        alias!("epd2in9_v2::Display2in9", epd2in9_v2, Display2in9, Bw, false),
+        alias!("Display2in9b", epd2in9b_v4, Display2in9b, Tri, true),
+        alias!("Display2in9bc", epd2in9bc, Display2in9bc, Bw, false),
+        alias!("Display2in9d", epd2in9d, Display2in9d, Bw, false),
+        alias!("Display3in7", epd3in7, Display3in7, Bw, false),
+        alias!("Display4in2", epd4in2, Display4in2, Bw, false),
+        alias!("Display5in65f", epd5in65f, Display5in65f, Oct, false),
+        alias!("epd5in83_v2::Display5in83", epd5in83_v2, Display5in83, Bw, false),
+        alias!("epd5in83b_v2::Display5in83", epd5in83b_v2, Display5in83, Tri, false),
+        alias!("Display7in3f", epd7in3f, Display7in3f, Oct, false),
+        alias!("epd7in5::Display7in5", epd7in5, Display7in5, Bw, false),
+        alias!("epd7in5_hd::Display7in5", epd7in5_hd, Display7in5, Bw, false),
+        alias!("epd7in5_v2::Display7in5", epd7in5_v2, Display7in5, Bw, false),
+        alias!("epd7in5b_v2::Display7in5", epd7in5b_v2, Display7in5, Tri, false),
+        alias!("epd7in5b_v3::Display7in5", epd7in5b_v3, Display7in5, Tri, false),
+    ]
+}
+
+// ------------------------------------------------------------------------------------------------
+// the checker
+// ------------------------------------------------------------------------------------------------
+
+const SENT: u8 = 0xA5;
+const TAIL: usize = 64;
+
+fn h64(v: &[u64]) -> u64 {
+    let mut h = 0xC03u64;
+    for &x in v {
+        h = mix64(h ^ x.wrapping_mul(0x9E3779B97F4A7C15));
+    }
+    h
+}
+
+fn panic_msg(p: Box<dyn std::any::Any + Send>) -> String {
+    if let Some(s) = p.downcast_ref::<&str>() {
+        s.to_string()
+    } else if let Some(s) = p.downcast_ref::<String>() {
+        s.clone()
+    } else {
+        "<non-string panic payload>".to_string()
+    }
+}
+
+fn is_extreme(v: i32) -> bool {
+    v < -(1 << 30) || v > (1 << 30)
+}
+
+#[derive(Default)]
+struct Tally {
+    set_pixel_calls: u64,
+    draw_iter_calls: u64,
+    pts_in: u64,
+    pts_out: u64,
+    panics: u64,
+    compares: u64,
+    bytes: u64,
+    size_checks: u64,
+    tail_checks: u64,
+    batch_pixels: u64,
+    mismatches: u64,
+}
+
+struct Chk<'a> {
+    group: &'a str,
+    var: bool,
+    geo: Geo,
+    seed: u64,
+    shadow: Vec<u8>,
+    t: Tally,
+}
+
+impl<'a> Chk<'a> {
+    /// region (a) of the known defect: ceil(2w/8) != 2*ceil(w/8) <=> w%8 in 1..=4
+    fn known_tri_region(&self) -> bool {
+        self.var && self.geo.kind == Kind::Tri && (1..=4).contains(&(self.geo.w % 8))
+    }
+    fn tags(&self, rot: u8, extra: &[String]) -> Vec<String> {
+        if self.known_tri_region() {
+            return vec!["vardisplay".into(), "tricolor".into(), "w%8!=0".into()];
+        }
+        let mut v: Vec<String> = vec![
+            if self.var { "vardisplay".into() } else { "alias".into() },
+            self.geo.kind.tag().into(),
+            ROT_TAG[rot as usize].into(),
+        ];
+        if self.geo.kind == Kind::Tri {
+            v.push(format!("bwrbit={}", self.geo.bwrbit));
+        }
+        v.extend(extra.iter().cloned());
+        v
+    }
+    fn case_json(&self, rot: u8, via: &str, pts: &[(i32, i32, u8)]) -> J {
+        let mut j = J::obj()
+            .set("target", if self.var { "VarDisplay" } else { "Display alias" })
+            .set("group", self.group)
+            .set("width", self.geo.w)
+            .set("height", self.geo.h)
+            .set("colour_type", self.geo.kind.type_name())
+            .set("bwrbit", self.geo.bwrbit)
+            .set("rotation", ROT_TAG[rot as usize])
+            .set("via", via)
+            .set("seed", self.seed)
+            .set("points_in_call", pts.len());
+        if pts.len() == 1 {
+            j.put("x", pts[0].0);
+            j.put("y", pts[0].1);
+            j.put("colour", self.geo.kind.colour_name(pts[0].2));
+        } else {
+            j.put("batch", "all points of the case, colour = hash(x,y,seed) % ncolours (see c03.rs batch_colour)");
+        }
+        j
+    }
+    fn fail(&self, rep: &mut Report, rot: u8, via: &str, class: &str, tags: Vec<String>, detail: String, pts: &[(i32, i32, u8)]) {
+        rep.fail(Failure {
+            panel: self.group.to_string(),
+            entry: via.to_string(),
+            class: class.to_string(),
+            tags,
+            detail,
+            case: self.case_json(rot, via, pts),
+        });
+    }
+
+    fn check_size(&mut self, rep: &mut Report, rot: u8, got: (u32, u32)) {
+        self.t.size_checks += 1;
+        let want = self.geo.logical(rot);
+        if got != want {
+            let tags = vec![
+                if self.var { "vardisplay".to_string() } else { "alias".to_string() },
+                ROT_TAG[rot as usize].to_string(),
+            ];
+            rep.fail(Failure {
+                panel: self.group.to_string(),
+                entry: "size".into(),
+                class: "size-not-swapped".into(),
+                tags,
+                detail: format!(
+                    "{} {}x{} {}: size() = {}x{}, expected {}x{}",
+                    self.group, self.geo.w, self.geo.h, ROT_TAG[rot as usize], got.0, got.1, want.0, want.1
+                ),
+                case: self.case_json(rot, "size", &[]),
+            });
+        }
+    }
+
+    /// Account for one real call. `real` = every byte that must be accounted for (alias: `buffer()`;
+    /// VarDisplay: the whole backing slice, tail included); `exposed` = `buffer().len()`.
+    fn after_call(
+        &mut self,
+        rep: &mut Report,
+        rot: u8,
+        via: &'static str,
+        pts: &[(i32, i32, u8)],
+        panic: Option<String>,
+        real: &[u8],
+        exposed: usize,
+    ) {
+        if via == "set_pixel" {
+            self.t.set_pixel_calls += 1;
+        } else {
+            self.t.draw_iter_calls += 1;
+        }
+        let single = pts.len() == 1;
+        let n = real.len();
+        if let Some(msg) = panic {
+            self.t.panics += 1;
+            let ext = pts.iter().find(|p| is_extreme(p.0) || is_extreme(p.1));
+            let tags = if ext.is_some() {
+                vec!["extreme-coordinate".to_string(), ROT_TAG[rot as usize].to_string()]
+            } else if single {
+                let inb = self.geo.map(rot, pts[0].0, pts[0].1).is_some();
+                self.tags(rot, &[if inb { "in-bounds".to_string() } else { "out-of-bounds".to_string() }])
+            } else {
+                self.tags(rot, &["batch".to_string()])
+            };
+            let detail = if single {
+                format!(
+                    "{} {}x{} bwrbit={} {}: {}(({},{}), {}) panicked: {}",
+                    self.group,
+                    self.geo.w,
+                    self.geo.h,
+                    self.geo.bwrbit,
+                    ROT_TAG[rot as usize],
+                    via,
+                    pts[0].0,
+                    pts[0].1,
+                    self.geo.kind.colour_name(pts[0].2),
+                    msg
+                )
+            } else {
+                format!(
+                    "{} {}x{} bwrbit={} {}: {} over {} points panicked: {}",
+                    self.group,
+                    self.geo.w,
+                    self.geo.h,
+                    self.geo.bwrbit,
+                    ROT_TAG[rot as usize],
+                    via,
+                    pts.len(),
+                    msg
+                )
+            };
+            self.fail(rep, rot, via, "panic", tags, detail, pts);
+            // the call may have written part of its effect before panicking: resynchronise
+            self.shadow[..n].copy_from_slice(real);
+            return;
+        }
+        // model
+        let mut any_in = false;
+        let mut beyond = false;
+        for &(x, y, ci) in pts {
+            match self.geo.map(rot, x, y) {
+                Some((px, py)) => {
+                    any_in = true;
+                    self.t.pts_in += 1;
+                    let t = self.geo.target(px, py, ci);
+                    for k in 0..t.n {
+                        let i = t.idx[k];
+                        if i >= n {
+                            beyond = true;
+                        }
+                        if i < self.shadow.len() {
+                            self.shadow[i] = self.shadow[i] & !t.mask[k] | t.val[k];
+                        }
+                    }
+                }
+                None => self.t.pts_out += 1,
+            }
+        }
+        if !single {
+            self.t.batch_pixels += pts.len() as u64;
+        }
+        // whole-buffer comparison
+        self.t.compares += 1;
+        self.t.bytes += n as u64;
+        if self.var {
+            self.t.tail_checks += 1;
+        }
+        if !beyond && real == &self.shadow[..n] {
+            return;
+        }
+        self.t.mismatches += 1;
+        self.classify(rep, rot, via, pts, real, exposed, any_in);
+        self.shadow[..n].copy_from_slice(real);
+    }
+
+    fn classify(&mut self, rep: &mut Report, rot: u8, via: &'static str, pts: &[(i32, i32, u8)], real: &[u8], exposed: usize, any_in: bool) {
+        let n = real.len();
+        let single = pts.len() == 1;
+        let mut covered = vec![0u8; self.shadow.len().max(n)];
+        let mut outside: Option<(usize, usize)> = None; // (index, plane) of a target byte outside `real`
+        for &(x, y, ci) in pts {
+            if let Some((px, py)) = self.geo.map(rot, x, y) {
+                let t = self.geo.target(px, py, ci);
+                for k in 0..t.n {
+                    if t.idx[k] < covered.len() {
+                        covered[t.idx[k]] |= t.mask[k];
+                    }
+                    if t.idx[k] >= n && outside.is_none() {
+                        outside = Some((t.idx[k], k));
+                    }
+                }
+            }
+        }
+        let plane_len = self.geo.plane_len();
+        let plane_of = |i: usize| if self.geo.kind == Kind::Tri && i >= plane_len { "plane=chr" } else if self.geo.kind == Kind::Tri { "plane=bw" } else { "plane=0" };
+        let mut first_target: Option<usize> = None;
+        let mut first_stray: Option<usize> = None;
+        let mut first_tail: Option<usize> = None;
+        for i in 0..n {
+            let d = real[i] ^ self.shadow[i];
+            if d == 0 {
+                continue;
+            }
+            if i >= exposed {
+                first_tail.get_or_insert(i);
+                continue;
+            }
+            if d & covered[i] != 0 {
+                first_target.get_or_insert(i);
+            }
+            if d & !covered[i] != 0 {
+                first_stray.get_or_insert(i);
+            }
+        }
+        let head = if single {
+            format!(
+                "{} {}x{} bwrbit={} {}: {}(({},{}), {})",
+                self.group,
+                self.geo.w,
+                self.geo.h,
+                self.geo.bwrbit,
+                ROT_TAG[rot as usize],
+                via,
+                pts[0].0,
+                pts[0].1,
+                self.geo.kind.colour_name(pts[0].2)
+            )
+        } else {
+            format!(
+                "{} {}x{} bwrbit={} {}: {} over {} points",
+                self.group,
+                self.geo.w,
+                self.geo.h,
+                self.geo.bwrbit,
+                ROT_TAG[rot as usize],
+                via,
+                pts.len()
+            )
+        };
+        let colour_tag = |s: &Self| -> String {
+            if single {
+                format!("colour={}", s.geo.kind.colour_name(pts[0].2))
+            } else {
+                "batch".to_string()
+            }
+        };
+        if let Some(i) = first_tail {
+            let tags = self.tags(rot, &[]);
+            let detail = format!(
+                "{}: byte {} beyond the exposed slice (buffer().len() = {}) changed {:#04x} -> {:#04x}",
+                head, i, exposed, self.shadow[i], real[i]
+            );
+            self.fail(rep, rot, via, "sentinel-clobbered", tags, detail, pts);
+        }
+        if !any_in {
+            if let Some(i) = first_target.or(first_stray) {
+                let (x, y) = (pts[0].0 as i64, pts[0].1 as i64);
+                let (lw, lh) = self.geo.logical(rot);
+                let mut side = Vec::new();
+                if single {
+                    if x < 0 {
+                        side.push("x<0".to_string());
+                    }
+                    if x >= lw as i64 {
+                        side.push("x>=width".to_string());
+                    }
+                    if y < 0 {
+                        side.push("y<0".to_string());
+                    }
+                    if y >= lh as i64 {
+                        side.push("y>=height".to_string());
+                    }
+                } else {
+                    side.push("batch".to_string());
+                }
+                let tags = self.tags(rot, &side);
+                let detail = format!(
+                    "{}: point is outside the {}x{} rotated bounds but byte {} changed {:#04x} -> {:#04x}",
+                    head, lw, lh, i, self.shadow[i], real[i]
+                );
+                self.fail(rep, rot, via, "oob-point-wrote", tags, detail, pts);
+            }
+            return;
+        }
+        if let Some((i, k)) = outside {
+            let tags = self.tags(rot, &[colour_tag(self), if k == 1 { "plane=chr".to_string() } else { plane_of(i).to_string() }, "target-outside-buffer".to_string()]);
+            let detail = format!(
+                "{}: the pixel's byte {} (plane {}) lies outside the buffer the display exposes ({} bytes; model needs {})",
+                head,
+                i,
+                k,
+                exposed,
+                self.geo.total()
+            );
+            self.fail(rep, rot, via, "target-bit-wrong", tags, detail, pts);
+        }
+        if let Some(i) = first_target {
+            let tags = self.tags(rot, &[colour_tag(self), plane_of(i).to_string()]);
+            let detail = format!(
+                "{}: target byte {} is {:#04x}, model expects {:#04x} (pixel bits {:#04x})",
+                head, i, real[i], self.shadow[i], covered[i]
+            );
+            self.fail(rep, rot, via, "target-bit-wrong", tags, detail, pts);
+        }
+        if let Some(i) = first_stray {
+            let rel = if covered[i] != 0 { "same-byte" } else { "other-byte" };
+            let tags = self.tags(rot, &[colour_tag(self), plane_of(i).to_string(), rel.to_string()]);
+            let detail = format!(
+                "{}: byte {} is {:#04x}, model expects {:#04x}: bits {:#04x} outside the target pixel changed",
+                head,
+                i,
+                real[i],
+                self.shadow[i],
+                (real[i] ^ self.shadow[i]) & !covered[i]
+            );
+            self.fail(rep, rot, via, "stray-bit", tags, detail, pts);
+        }
+    }
+
+    fn flush(&mut self, rep: &mut Report) {
+        let t = std::mem::take(&mut self.t);
+        let calls = t.set_pixel_calls + t.draw_iter_calls;
+        rep.evaluations += calls;
+        *rep.per_panel.entry(self.group.to_string()).or_insert(0) += calls;
+        rep.count("set_pixel_calls", t.set_pixel_calls);
+        rep.count("draw_iter_calls", t.draw_iter_calls);
+        rep.count("points_in_bounds_checked", t.pts_in);
+        rep.count("points_out_of_bounds_checked", t.pts_out);
+        rep.count("nontrivial_items", t.pts_in);
+        rep.count("panics_caught", t.panics);
+        rep.count("buffers_compared", t.compares);
+        rep.count("bytes_compared", t.bytes);
+        rep.count("size_checks", t.size_checks);
+        rep.count("sentinel_tail_checks", t.tail_checks);
+        rep.count("pixels_in_batch_draw_iter_calls", t.batch_pixels);
+        rep.count("calls_with_buffer_mismatch", t.mismatches);
+    }
+}
+
+fn batch_colour(seed: u64, x: i32, y: i32, ncol: u8) -> u8 {
+    (h64(&[seed, x as u32 as u64, y as u32 as u64, 0xBA7C]) % ncol as u64) as u8
+}
+
+fn extremes(w: u32, h: u32) -> Vec<i32> {
+    let mut v = vec![
+        i32::MIN,
+        i32::MIN + 1,
+        -1,
+        0,
+        w as i32 - 1,
+        w as i32,
+        h as i32 - 1,
+        h as i32,
+        i32::MAX,
+    ];
+    v.sort();
+    v.dedup();
+    v
+}
+
+// ------------------------------------------------------------------------------------------------
+// VarDisplay
+// ------------------------------------------------------------------------------------------------
+
+struct VarOut {
+    panic: Option<String>,
+    size: Option<(u32, u32)>,
+    exposed: Option<usize>,
+    rejected: bool,
+}
+
+fn var_call<C: Ck>(geo: &Geo, rot: u8, backing: &mut [u8], pts: &[(i32, i32, u8)], via_iter: bool) -> VarOut {
+    let mut size = None;
+    let mut exposed = None;
+    let mut rejected = false;
+    let r = catch_unwind(AssertUnwindSafe(|| {
+        let mut d = match VarDisplay::<C>::new(geo.w, geo.h, backing, geo.bwrbit) {
+            Ok(d) => d,
+            Err(_) => {
+                rejected = true;
+                return;
+            }
+        };
+        d.set_rotation(rot_of(rot));
+        let s = d.size();
+        size = Some((s.width, s.height));
+        exposed = Some(d.buffer().len());
+        if via_iter {
+            let _ = d.draw_iter(pts.iter().map(|&(x, y, ci)| Pixel(Point::new(x, y), C::from_idx(ci))));
+        } else {
+            for &(x, y, ci) in pts {
+                d.set_pixel(Pixel(Point::new(x, y), C::from_idx(ci)));
+            }
+        }
+        exposed = Some(d.buffer().len());
+    }));
+    VarOut { panic: r.err().map(panic_msg), size, exposed, rejected }
+}
+
+fn var_case<C: Ck>(w: u32, h: u32, seed: u64, rep: &mut Report) {
+    let kind = C::KIND;
+    let group = kind.var_group();
+    let gh = hash_str(group);
+    for bwrbit in [false, true] {
+        let geo = Geo { w, h, kind, bwrbit };
+        let total = geo.total();
+        let mut backing = vec![SENT; total + TAIL];
+        let mut rng = Rng::derive(seed, h64(&[0xC03, w as u64, h as u64, kind as u64, bwrbit as u64]));
+        for b in &mut backing[..total] {
+            *b = rng.next() as u8;
+        }
+        // constructor probe: a legitimate Err(BufferTooSmall) means "not a C03 case"
+        let probe = var_call::<C>(&geo, 0, &mut backing, &[], false);
+        let mut chk = Chk { group, var: true, geo, seed, shadow: backing.clone(), t: Tally::default() };
+        if let Some(msg) = probe.panic {
+            let tags = chk.tags(0, &["constructor".to_string()]);
+            chk.fail(
+                rep,
+                0,
+                "VarDisplay::new",
+                "panic",
+                tags,
+                format!("{} new({}, {}, len {}, bwrbit={}) panicked: {}", group, w, h, total + TAIL, bwrbit, msg),
+                &[],
+            );
+            continue;
+        }
+        if probe.rejected {
+            rep.count("vardisplay_rejected_not_a_case", 1);
+            continue;
+        }
+        let mut exposed = probe.exposed.unwrap_or(total);
+        if exposed != total {
+            rep.count("vardisplay_exposed_len_differs_from_model", 1);
+        }
+        let ncol = kind.ncol();
+        let mut sampled = false;
+        for rot in 0..4u8 {
+            let (lw, lh) = geo.logical(rot);
+            let mut do_call = |chk: &mut Chk, rep: &mut Report, backing: &mut Vec<u8>, pts: &[(i32, i32, u8)], via_iter: bool, exposed: &mut usize| {
+                let o = var_call::<C>(&geo, rot, backing, pts, via_iter);
+                if o.rejected {
+                    rep.count("vardisplay_rejected_not_a_case", 1);
+                    return;
+                }
+                if let Some(s) = o.size {
+                    chk.check_size(rep, rot, s);
+                }
+                if let Some(e) = o.exposed {
+                    *exposed = e;
+                }
+                chk.after_call(rep, rot, if via_iter { "draw_iter" } else { "set_pixel" }, pts, o.panic, backing, *exposed);
+            };
+            // every point of [-3, lw+3] x [-3, lh+3], every colour
+            for y in -3..=(lh as i32 + 3) {
+                for x in -3..=(lw as i32 + 3) {
+                    let start = batch_colour(seed ^ 0x51, x, y, ncol);
+                    for k in 0..ncol {
+                        let ci = (start + k) % ncol;
+                        let via_iter = (x + 2 * y + k as i32).rem_euclid(5) == 0;
+                        if !sampled && rot == 1 && geo.map(rot, x, y).is_some() && w >= 3 && h >= 2 && x == 1 && y == 1 {
+                            sampled = true;
+                            let (px, py) = geo.map(rot, x, y).unwrap();
+                            let t = geo.target(px, py, ci);
+                            let before = chk.shadow.get(t.idx[0]).copied();
+                            do_call(&mut chk, rep, &mut backing, &[(x, y, ci)], via_iter, &mut exposed);
+                            rep.sample(
+                                J::obj()
+                                    .set("group", group)
+                                    .set("width", w)
+                                    .set("height", h)
+                                    .set("bwrbit", bwrbit)
+                                    .set("rotation", ROT_TAG[rot as usize])
+                                    .set("point", vec![x, y])
+                                    .set("colour", kind.colour_name(ci))
+                                    .set("model_physical_pixel", vec![px, py])
+                                    .set("model_byte_index", t.idx[0])
+                                    .set("model_pixel_mask", t.mask[0])
+                                    .set("model_value_bits", t.val[0])
+                                    .set("byte_before", before.map(|b| b as u32))
+                                    .set("real_byte_after", backing.get(t.idx[0]).map(|b| *b as u32))
+                                    .set("backing_len", backing.len())
+                                    .set("exposed_len", exposed),
+                            );
+                            continue;
+                        }
+                        do_call(&mut chk, rep, &mut backing, &[(x, y, ci)], via_iter, &mut exposed);
+                    }
+                }
+            }
+            // coordinate extremes squared
+            let ex = extremes(w, h);
+            for &y in &ex {
+                for &x in &ex {
+                    for ci in 0..ncol {
+                        do_call(&mut chk, rep, &mut backing, &[(x, y, ci)], false, &mut exposed);
+                    }
+                }
+            }
+            // one batch draw_iter over the whole grid (in- and out-of-bounds points mixed)
+            let mut pts = Vec::with_capacity(((lw + 7) * (lh + 7)) as usize);
+            for y in -3..=(lh as i32 + 3) {
+                for x in -3..=(lw as i32 + 3) {
+                    pts.push((x, y, batch_colour(seed ^ rot as u64, x, y, ncol)));
+                }
+            }
+            do_call(&mut chk, rep, &mut backing, &pts, true, &mut exposed);
+            for ci in 0..ncol {
+                rep.nontrivial(h64(&[gh, w as u64, h as u64, bwrbit as u64, rot as u64, ci as u64]));
+            }
+        }
+        chk.flush(rep);
+    }
+}
+
+// ------------------------------------------------------------------------------------------------
+// shipped aliases
+// ------------------------------------------------------------------------------------------------
+
+fn alias_case(a: &Alias, rot: u8, rows: Option<(u32, u32)>, seed: u64, rep: &mut Report) {
+    let geo = Geo { w: a.w, h: a.h, kind: a.kind, bwrbit: a.bwrbit };
+    let gh = hash_str(a.name);
+    let mut d = (a.make)();
+    d.set_rot(rot_of(rot));
+    let n = d.bytes().len();
+    let total = geo.total();
+    let mut chk = Chk { group: a.name, var: false, geo, seed, shadow: vec![0u8; n.max(total)], t: Tally::default() };
+    if n != total {
+        rep.count("alias_buffer_len_differs_from_model", 1);
+    }
+    chk.shadow[..n].copy_from_slice(d.bytes());
+    chk.check_size(rep, rot, d.dims());
+    let (lw, lh) = geo.logical(rot);
+    let ncol = a.kind.ncol();
+    // background: one draw_iter call painting every pixel with a pseudo-random colour
+    {
+        let mut pts = Vec::with_capacity((lw * lh) as usize);
+        for y in 0..lh as i32 {
+            for x in 0..lw as i32 {
+                pts.push((x, y, batch_colour(seed ^ gh, x, y, ncol)));
+            }
+        }
+        let r = catch_unwind(AssertUnwindSafe(|| d.iter(&mut pts.iter().copied())));
+        chk.after_call(rep, rot, "draw_iter", &pts, r.err().map(panic_msg), d.bytes(), n);
+    }
+    let mut sampled = false;
+    let mut one = |chk: &mut Chk, rep: &mut Report, d: &mut Box<dyn Fb>, x: i32, y: i32| {
+        let start = batch_colour(seed ^ 0x51, x, y, ncol);
+        for k in 0..ncol {
+            let ci = (start + k) % ncol;
+            let via_iter = (x + 3 * y + k as i32).rem_euclid(11) == 0;
+            let want_sample = !sampled && x == 5 && y == 0;
+            let before = if want_sample {
+                geo.map(rot, x, y).map(|(px, py)| {
+                    let t = geo.target(px, py, ci);
+                    (px, py, t, chk.shadow.get(t.idx[0]).copied())
+                })
+            } else {
+                None
+            };
+            let r = catch_unwind(AssertUnwindSafe(|| {
+                if via_iter {
+                    d.iter(&mut std::iter::once((x, y, ci)))
+                } else {
+                    d.px(x, y, ci)
+                }
+            }));
+            chk.after_call(rep, rot, if via_iter { "draw_iter" } else { "set_pixel" }, &[(x, y, ci)], r.err().map(panic_msg), d.bytes(), n);
+            if let Some((px, py, t, b)) = before {
+                sampled = true;
+                rep.sample(
+                    J::obj()
+                        .set("group", a.name)
+                        .set("width", a.w)
+                        .set("height", a.h)
+                        .set("bwrbit", a.bwrbit)
+                        .set("rotation", ROT_TAG[rot as usize])
+                        .set("point", vec![x, y])
+                        .set("colour", a.kind.colour_name(ci))
+                        .set("model_physical_pixel", vec![px, py])
+                        .set("model_byte_index", t.idx[0])
+                        .set("model_pixel_mask", t.mask[0])
+                        .set("model_value_bits", t.val[0])
+                        .set("byte_before", b.map(|b| b as u32))
+                        .set("real_byte_after", d.bytes().get(t.idx[0]).map(|b| *b as u32))
+                        .set("buffer_len", n),
+                );
+            }
+        }
+    };
+    match rows {
+        Some((y0, y1)) => {
+            // exhaustive: every pixel of the row chunk, every colour
+            for y in y0..y1 {
+                for x in 0..lw {
+                    one(&mut chk, rep, &mut d, x as i32, y as i32);
+                }
+                for ci in 0..ncol {
+                    rep.nontrivial(h64(&[gh, rot as u64, ci as u64, y as u64]));
+                }
+            }
+            if y0 == 0 {
+                let ex = extremes(a.w, a.h);
+                for &y in &ex {
+                    for &x in &ex {
+                        one(&mut chk, rep, &mut d, x, y);
+                    }
+                }
+            }
+        }
+        None => {
+            // border pixels, one ring outside the border, stride-7 lattice, extremes squared
+            let (lwi, lhi) = (lw as i32, lh as i32);
+            for x in -1..=lwi {
+                for y in [-1, 0, lhi - 1, lhi] {
+                    one(&mut chk, rep, &mut d, x, y);
+                }
+            }
+            for y in 1..lhi - 1 {
+                for x in [-1, 0, lwi - 1, lwi] {
+                    one(&mut chk, rep, &mut d, x, y);
+                }
+            }
+            let mut y = 0;
+            while y < lhi {
+                let mut x = 0;
+                while x < lwi {
+                    one(&mut chk, rep, &mut d, x, y);
+                    x += 7;
+                }
+                for ci in 0..ncol {
+                    rep.nontrivial(h64(&[gh, rot as u64, ci as u64, y as u64]));
+                }
+                y += 7;
+            }
+            for ci in 0..ncol {
+                rep.nontrivial(h64(&[gh, rot as u64, ci as u64, 0]));
+                rep.nontrivial(h64(&[gh, rot as u64, ci as u64, lhi as u64 - 1]));
+            }
+            let ex = extremes(a.w, a.h);
+            for &y in &ex {
+                for &x in &ex {
+                    one(&mut chk, rep, &mut d, x, y);
+                }
+            }
+        }
+    }
+    chk.flush(rep);
+}
+
+// ------------------------------------------------------------------------------------------------
+// driver
+// ------------------------------------------------------------------------------------------------
+
+enum Case {
+    Alias { ai: usize, rot: u8, rows: Option<(u32, u32)> },
+    Var { w: u32, h: u32, kind: Kind },
+}
+
+pub fn run(ctx: &Ctx) -> Report {
+    let miri = ctx.mode == "miri";
+    let al = aliases();
+    let mut cases: Vec<(u64, Case)> = Vec::new();
+    let want = |name: &str| ctx.only_panel.as_ref().map_or(true, |p| name.contains(p.as_str()));
+    if !miri {
+        for (ai, a) in al.iter().enumerate() {
+            if !want(a.name) {
+                continue;
+            }
+            let geo = Geo { w: a.w, h: a.h, kind: a.kind, bwrbit: a.bwrbit };
+            let buflen = geo.total() as u64;
+            for rot in 0..4u8 {
+                let (lw, lh) = geo.logical(rot);
+                if ctx.tier_thorough {
+                    let cost_row = lw as u64 * a.kind.ncol() as u64 * buflen;
+                    let rows_per = ((1_500_000_000u64 / cost_row.max(1)).max(1) as u32).min(lh);
+                    let mut y = 0;
+                    while y < lh {
+                        let y1 = (y + rows_per).min(lh);
+                        cases.push((cost_row * (y1 - y) as u64, Case::Alias { ai, rot, rows: Some((y, y1)) }));
+                        y = y1;
+                    }
+                } else {
+                    let pts = (2 * (lw + lh) + (lw / 7 + 1) * (lh / 7 + 1)) as u64;
+                    cases.push((pts * a.kind.ncol() as u64 * buflen, Case::Alias { ai, rot, rows: None }));
+                }
+            }
+        }
+    }
+    let vmax = if miri {
+        10
+    } else if ctx.tier_thorough {
+        40
+    } else {
+        16
+    };
+    for kind in [Kind::Bw, Kind::Tri, Kind::Oct] {
+        if !want(kind.var_group()) {
+            continue;
+        }
+        for w in 1..=vmax {
+            for h in 1..=vmax {
+                let geo = Geo { w, h, kind, bwrbit: false };
+                let cost = ((w + 7) * (h + 7)) as u64 * 8 * kind.ncol() as u64 * (geo.total() as u64 + 200);
+                cases.push((cost, Case::Var { w, h, kind }));
+            }
+        }
+    }
+    // heaviest first: par_run hands out chunks dynamically, so this balances the tail
+    cases.sort_by(|a, b| b.0.cmp(&a.0));
+    let cases: Vec<Case> = cases.into_iter().map(|c| c.1).collect();
+    let threads = if miri { 1 } else { ctx.threads };
+    let seed = ctx.seed;
+    let mut rep = par_run(&cases, threads, |_i, c, rep| match c {
+        Case::Alias { ai, rot, rows } => alias_case(&al[*ai], *rot, *rows, seed, rep),
+        Case::Var { w, h, kind } => match kind {
+            Kind::Bw => var_case::<Color>(*w, *h, seed, rep),
+            Kind::Tri => var_case::<TriColor>(*w, *h, seed, rep),
+            Kind::Oct => var_case::<OctColor>(*w, *h, seed, rep),
+        },
+    });
+    rep.count("cases", cases.len() as u64);
+    rep.count("aliases_covered", if miri { 0 } else { al.iter().filter(|a| want(a.name)).count() as u64 });
+    rep.note("evaluation = one real set_pixel/draw_iter call followed by a comparison of the WHOLE real buffer (VarDisplay: whole backing slice incl. 64-byte sentinel tail) with the shadow buffer of the independent model");
+    rep.note("distinct_nontrivial hashes one entry per (group, geometry, bwrbit, rotation, colour[, logical row for aliases]) that contained in-bounds points; the exact number of in-bounds point draws compared with the model is counters.nontrivial_items");
+    rep.note("VarDisplay backing slices start with seeded random bytes (so cleared bits are observable); alias buffers are first painted with a seeded random colour per pixel through one draw_iter call that is itself checked");
+    rep.note("tag w%8!=0 marks VarDisplay<TriColor> geometries with w%8 in 1..=4, the widths for which ceil(2w/8) != 2*ceil(w/8); widths with w%8 in 5..=7 size correctly and get ordinary tags");
+    if miri {
+        rep.note("mode miri: aliases skipped, VarDisplay w,h in 1..=10, single thread");
+    }
+    rep
 }
